@@ -5,6 +5,7 @@ CONSTANTS
   FieldSeps = {":", "|"}
   ArraySizes = {0, 64}
   ActiveFns <- AllFns
-  MaxHist = 12
-INVARIANTS Emit
+  ActiveOps <- AllOpNames
+  MaxHist = 24
+INVARIANTS Functional OnlyRelevant Emit
 CHECK_DEADLOCK FALSE
